@@ -458,6 +458,16 @@ func (g *gen) tx(ts TxShape, slot uint64, pos, blockIdx, counter int) TxTruth {
 			}},
 		},
 	}
+	if len(ts.Loaded) > 0 && !ts.Vote {
+		// address-table loaded accounts: a v0 message with one lookup table; the loaded keys
+		// themselves are recorded in the metadata (as on chain)
+		tx.Message.SetVersion(solana.MessageVersionV0)
+		var widx []uint8
+		for i := range ts.Loaded {
+			widx = append(widx, uint8(i))
+		}
+		tx.Message.AddressTableLookups = []solana.MessageAddressTableLookup{{AccountKey: Account(500 + counter%3), WritableIndexes: widx}}
+	}
 	txBytes, err := tx.MarshalBinary()
 	if err != nil {
 		panic(fmt.Errorf("cargen: marshal tx: %w", err))
